@@ -959,9 +959,9 @@ func TestVerifC05Conn(t *testing.T) {
 	stats := NewVStats()
 	ud := &c05Dialer{}
 	cp := c05ControlPlane(t, ud)
-	n := 700
+	n := 2500
 	if VThorough() {
-		n = 9000
+		n = 60000
 	}
 	emit := func(s *c05Scn) {
 		op, impl, ok := c05Run(t, cp, ud, s)
